@@ -87,7 +87,72 @@ def scenario_past(tp):
                 {'clock': cname, 'quant': 0, 'seed': None, 'body': body}]}
 
 
+def gen_appsys(tp, tier):
+    """NRT only: a program over AppClock as well.  In non-real-time mode
+    AppClock keeps logical time like SystemClock (no drift), so the program
+    must behave exactly as its copy with SystemClock in AppClock's place."""
+    feat = {'tempo_clocks': True, 'app': True, 'sends': True, 'bind': True,
+            'sync': tp.draw(2) == 0, 'control': True,
+            'draws': tp.draw(2) == 0, 'seeds': True, 'inf_wait': True}
+    prog = rprog.gen(tp, feat, tier)
+    for _ in range(6):
+        if any(r['clock'] == 'app' for r in prog['routines'][1:]):
+            break
+        prog = rprog.gen(tp, feat, tier)
+    prog['routines'][0]['seed'] = tp.draw(1000)
+    # (a routine resumed onto another clock sits in two queues; with
+    # SystemClock standing in for AppClock the two would be one: only
+    # resumptions on the routine's own clock here)
+    for r in prog['routines']:
+        for st in r['body']:
+            if st[0] == 'resume' and len(st) > 2:
+                del st[2:]
+    return {'prog': prog, 'kind': 'appsys', 'knobs': {}, 'perturb': 1,
+            'family': 0}
+
+
+def run_appsys(case, tape):
+    import copy
+    import hashlib
+    prog = case['prog']
+    viol = C.Violations()
+    stats = {'nrt-app-vs-sys': 1}
+    twin = copy.deepcopy(prog)
+    for r in twin['routines']:
+        if r['clock'] == 'app':
+            r['clock'] = 'sys'
+    for r in twin['routines']:
+        for st in r['body']:
+            if st[0] == 'resume' and len(st) > 2 and st[2] == 'app':
+                st[2] = 'sys'
+    a = S.subrun(tape, lambda st, emit: W.run_nrt(prog, st, emit))
+    b = S.subrun(tape, lambda st, emit: W.run_nrt(twin, st, emit))
+    napp = sum(1 for r in prog['routines'] if r['clock'] == 'app')
+    if not W.process_raised(viol, 'C10-1', a, b) and napp:
+        compare_traces('nrt (AppClock)', a['trace'], 'nrt (SystemClock)',
+                       b['trace'], viol, 'C10-1', 'nrt-app-vs-sys', stats)
+        if a['raw'] != b['raw']:
+            viol.add('C10-1', 'nrt-app-vs-sys-score',
+                     'the score of the program differs from the score of '
+                     'its copy with SystemClock in place of AppClock: '
+                     f'{first_diff(a["score"], b["score"])}')
+        for name, res in (('app', a), ('sys', b)):
+            if res['errors']:
+                viol.add('C10-1', f'nrt-{name}-error-logged',
+                         str(res['errors'][0]))
+    h = hashlib.sha1(repr(a.get('raw', '')).encode()).hexdigest()
+    return {'violations': viol.items, 'probes': stats, 'faults': {},
+            'outcome': 'ok', 'steps': 0, 'vtime': 0.0, 'sig': h[:16],
+            'digest': h, 'nontrivial': napp > 0,
+            'sample': {'kind': 'appsys', 'routines': [
+                {'clock': r['clock'], 'body': r['body'][:8]}
+                for r in prog['routines'][:3]]},
+            'features': ['nrt-app-vs-sys']}
+
+
 def gen_case(tp, tier):
+    if tp.draw(10) == 0:
+        return gen_appsys(tp, tier)
     if tp.draw(16) == 0:
         kn = {'policy': tp.choice(C.POLICIES), 'lat': tp.choice([0, 4, 4]),
               'cost': tp.choice([0.0, 5e-6]), 'stall_pm': 0,
@@ -429,6 +494,8 @@ def draws_of(trace):
 
 
 def run_case(case, tape, ctx):
+    if case.get('kind') == 'appsys':
+        return run_appsys(case, tape)
     prog = case['prog']
     viol = C.Violations()
     stats = {}
